@@ -27,12 +27,20 @@ def gen_case(seed: int, tier: str, index: int, profiles, net_cfg, draw_range) ->
                            "tables": {"idle": {"PROTOCOL_TIMEOUT_IN_SECONDS": T, "PROTOCOL_RETRY_COUNT": R}},
                            "snapshot": snaps[rng.randrange(len(snaps))].split("/")[-1], "T": T, "R": R, "used_numbers": rng.choice([0, 0, 100, 126, 127, 160, 188]),
                            "reliability": rng.choice([0.9, 0.97]) if profile == "unreliable" else 1.0}
+    rng_p = random.Random(mix(seed, "c01t.preempt"))
+    if rng_p.random() < 0.4:
+        # the caller registers its request from its own thread while the engine thread tidies its handler list: the engine is pre-empted at
+        # line level inside udp_socket.py (only the engine: the caller's lines are the harness')
+        cfg["sched"].update(preempt_p=rng_p.choice([0.05, 0.2, 0.5]), preempt_files=["udp_socket.py"], preempt_threads=["_thread_func"])
     n = rng.randint(3, 8) if tier == "quick" else rng.randint(5, 16)
     plan = []
     for _ in range(n):
         start, length = draw_range(rng)
         plan.append({"op": "transfer", "start": start, "length": length, "block": rng.choice(["random", "random", "zeros", "ff", "mutsnap"]),
                      "bseed": rng.getrandbits(32)})
+    if cfg["sched"].get("preempt_p"):
+        for o in plan:
+            o["phase"] = round(rng_p.uniform(0.0, 0.06), 4)
     return {"property": PROP, "world": "T", "seed": seed, "cfg": cfg, "plan": plan}
 
 
@@ -82,6 +90,8 @@ def scenario(world: WorldT) -> None:
         except Exception as e:
             world.violate(PROP, "transfer-raised", f"[blocking] transfer#{ti} start={start} length={length}: building the request raised "
                           f"{type(e).__name__}: {e}", sig="transfer-raised:" + type(e).__name__)
+        if op.get("phase"):
+            world.sleep(op["phase"])        # anywhere inside an iteration of the engine
         t0 = world.now()
         struct.retry_request(sock, request, sendparms)
         # the outcome is visible as "the handler left the engine's list"
